@@ -18,38 +18,38 @@ theorem binName_ne_pow {op : String} (h : (binName op).isSome = true) : (op == "
     simp [binName] at h
 
 mutual
-theorem visitE_plain : ∀ e : SExp, plainE e = true → visitE e = .ok e
+theorem visitE_plain (st : RSt) : ∀ e : SExp, plainE e = true → visitE st e = .ok e
   | .name n, h => by
     simp only [plainE] at h
     simp [visitE, userName_not_dunder h, pure, Except.pure]
   | .const c, _ => by simp [visitE, pure, Except.pure]
   | .boolop a vs, h => by
     simp only [plainE] at h
-    simp [visitE, visitEs_plain vs h, bind, Except.bind, pure, Except.pure]
+    simp [visitE, visitEs_plain st vs h, bind, Except.bind, pure, Except.pure]
   | .unop op e, h => by
     simp only [plainE, Bool.and_eq_true] at h
-    simp [visitE, visitE_plain e h.2, bind, Except.bind, pure, Except.pure]
+    simp [visitE, visitE_plain st e h.2, bind, Except.bind, pure, Except.pure]
   | .ite c t e, h => by
     simp only [plainE, Bool.and_eq_true] at h
-    simp [visitE, visitE_plain c h.1.1, visitE_plain t h.1.2, visitE_plain e h.2, bind, Except.bind, pure,
+    simp [visitE, visitE_plain st c h.1.1, visitE_plain st t h.1.2, visitE_plain st e h.2, bind, Except.bind, pure,
       Except.pure]
   | .cmp op l r, h => by
     simp only [plainE, Bool.and_eq_true] at h
-    simp [visitE, visitE_plain l h.1, visitE_plain r h.2, bind, Except.bind, pure, Except.pure]
+    simp [visitE, visitE_plain st l h.1, visitE_plain st r h.2, bind, Except.bind, pure, Except.pure]
   | .bin op l r, h => by
     simp only [plainE, Bool.and_eq_true] at h
-    simp [visitE, binName_ne_pow h.1.1.1, visitE_plain l h.1.1.2, visitE_plain r h.1.2, bind, Except.bind, pure,
+    simp [visitE, binName_ne_pow h.1.1.1, visitE_plain st l h.1.1.2, visitE_plain st r h.1.2, bind, Except.bind, pure,
       Except.pure]
   | .sub _ _, h => by simp [plainE] at h
   | .tuple _, h => by simp [plainE] at h
   | .list _, h => by simp [plainE] at h
   | .call _ _, h => by simp [plainE] at h
   | .other _, h => by simp [plainE] at h
-theorem visitEs_plain : ∀ es : List SExp, plainEs es = true → visitEs es = .ok es
+theorem visitEs_plain (st : RSt) : ∀ es : List SExp, plainEs es = true → visitEs st es = .ok es
   | [], _ => by simp [visitEs, pure, Except.pure]
   | e :: es, h => by
     simp only [plainEs, Bool.and_eq_true] at h
-    simp [visitEs, visitE_plain e h.1, visitEs_plain es h.2, bind, Except.bind, pure, Except.pure]
+    simp [visitEs, visitE_plain st e h.1, visitEs_plain st es h.2, bind, Except.bind, pure, Except.pure]
 end
 
 mutual
@@ -397,10 +397,10 @@ theorem knownGrows_envUpdate (t : String) (v : SExp) (s : RSt) (u : Unit) (s1 : 
     split at h
     · exact knownGrows_copyType _ _ _ _ _ h
     · exact knownGrows_setType _ _ _ _ _ h
-  · simp only [rm_bind_ok, rm_liftX_ok] at h
+  · simp only [rm_bind_ok, rm_visitM_ok] at h
     obtain ⟨_, _, ⟨_, rfl⟩, h⟩ := h
     exact knownGrows_setConstantNode _ _ _ _ _ h
-  · simp only [rm_bind_ok, rm_liftX_ok] at h
+  · simp only [rm_bind_ok, rm_visitM_ok] at h
     obtain ⟨_, _, ⟨_, rfl⟩, h⟩ := h
     exact knownGrows_setConstantNode _ _ _ _ _ h
   · exact knownGrows_setType _ _ _ _ _ h
@@ -428,11 +428,11 @@ theorem visitAssign_inv (t : String) (v : SExp) (ht : userName t = true) (hv : p
   have hk1 := hk.grows hg (userName_not_dunder ht)
   rw [rm_ite_ok] at h2
   rcases h2 with ⟨_, h2⟩ | ⟨_, h2⟩
-  · simp only [rm_bind_ok, rm_liftX_ok, rm_pure_ok, visitE_plain v hv, Except.ok.injEq] at h2
+  · simp only [rm_bind_ok, rm_liftX_ok, rm_visitM_ok, rm_pure_ok, visitE_plain _ v hv, Except.ok.injEq] at h2
     obtain ⟨_, s2, hn, _, _, ⟨rfl, rfl⟩, rfl, rfl⟩ := h2
     have hc := note_core _ _ _ _ hn
     exact ⟨hk1.core hc, by rw [hc.1, hg.1], Or.inr rfl⟩
-  · simp only [rm_bind_ok, rm_liftX_ok, rm_pure_ok, visitE_plain v hv, Except.ok.injEq] at h2
+  · simp only [rm_bind_ok, rm_liftX_ok, rm_visitM_ok, rm_pure_ok, visitE_plain _ v hv, Except.ok.injEq] at h2
     obtain ⟨_, _, ⟨rfl, rfl⟩, rfl, rfl⟩ := h2
     exact ⟨hk1, hg.1, Or.inl rfl⟩
 
@@ -442,7 +442,7 @@ theorem visitAug_inv (t op : String) (v : SExp) (hp : plainE (.bin op (.name t) 
     SameCore st st' ∧
       L = [.assign [.name ("__" ++ t)] (.bin op (.name t) v), .assign [.name t] (.name ("__" ++ t))] := by
   unfold visitAug at h
-  simp only [rm_bind_ok, rm_pure_ok, rm_liftX_ok, visitE_plain _ hp, Except.ok.injEq] at h
+  simp only [rm_bind_ok, rm_pure_ok, rm_liftX_ok, rm_visitM_ok, visitE_plain _ _ hp, Except.ok.injEq] at h
   obtain ⟨_, _, ⟨rfl, rfl⟩, _, s1, hn, _, _, ⟨rfl, rfl⟩, rfl, rfl⟩ := h
   exact ⟨note_core _ _ _ _ hn, rfl⟩
 
